@@ -113,3 +113,24 @@ Print Assumptions C03_history_sound_fp.
 Theorem C03_pool_rules_covered : forall p, p <> 0 -> Forall (fp_rule p) pool_mrules /\ Forall rule_nb pool_mrules.
 Proof. exact pool_rules_fp. Qed.
 Print Assumptions C03_pool_rules_covered.
+
+(* third session, third round (EGraph/RewriteSoundSubst{,Top,Rel,Sem}.v, SynPrivOps.v, MatchValsWin.v, ExtractSound.v, LeafHit.v,
+   Sem/SubstSem.v, Sem/FpRewriteSubstEx.v): right-hand sides b[x := t].  PROVED, closed: one apply_rewrites with rules whose right-hand
+   sides may contain b[x := t] keeps the soundness invariant for an enlarged equation set (below) - the premise that psubst_captures shows
+   necessary (no substitution value is the private binder name of a syntactic node) is ESTABLISHED for the matcher's own substitutions
+   (their fresh values lie in the window drawn during the search phase, no syntactic node has a private name in that window); extraction
+   of the syntactic term is sound (ExtractSound.get_syn_expr_handle).  PROVED modulo two explicit hypotheses (RewriteSoundSubstSem.
+   syn_expr_subst_sem; hit_keep_add: inserting another node does not change what re-inserting the leaf (var $x) returns - proved up to the
+   rebuild of mk_singleton_class; PRE: well-formedness facts of the extracted term): the invocation returned for b[(var $x) := t] denotes
+   a term whose value in every algebra validating E is the value of b with $x bound to the value of t.  EVALUATED (FpRewriteSubstEx.v,
+   vm_compute): with pool rule 11 the model replaces ALL occurrences in every tested situation (0/1/2 occurrences, under a binder, t
+   mentioning a slot bound in the context, shadowing, several representatives of the variable's class) and the semantic equation holds
+   on 8 histories x 4 environments in F_7; the exact SYNTACTIC formulation is false (redundant_slot_not_syntactic: after (mul ?a 0) -> 0
+   the result is the instance of the class's syntactic term), so the theorem has to be semantic.  Not done: the F_p instance for rule 11. *)
+From SE Require Import EGraph.SynPrivOps EGraph.RewriteSoundSubst EGraph.RewriteSoundSubstTop.
+Theorem C03_rewrite_iteration_with_substitution_rhs_keeps_the_invariant : forall rs E s b s',
+  RSt E s -> priv3 s -> kids_ok s -> m4 s -> rules_below (Model.ctr s) rs -> Forall rule_nbX rs ->
+  apply_rewrites rs s = Ok (b, s') ->
+  exists E', (forall e, In e E -> In e E') /\ RSt E' s' /\ priv3 s' /\ ext0 s s'.
+Proof. exact apply_rewrites_keeps_RSt. Qed.
+Print Assumptions C03_rewrite_iteration_with_substitution_rhs_keeps_the_invariant.
